@@ -558,3 +558,106 @@ def _count(eng, st, obj, args, kwargs, node, site):
 		yield st, SInt(gqcount(obj.term))
 		return
 	raise Unsupported(f'count() on {obj!r}')
+
+
+@lib('builtins.map')
+def _map(eng, st, args, kwargs, node):
+	"""map(f, xs) consumed as a list: element-wise (generic element for symbolic sequences)"""
+	f = args[0]
+	if len(args) != 2:
+		raise Unsupported('map over several iterables')
+	xs = st.deref(args[1])
+	if isinstance(xs, ConcreteIter):
+		xs = xs.items
+	if isinstance(xs, (list, tuple, range, str)):
+		states = [(st, [])]
+		for x in xs:
+			nxt = []
+			for s, acc in states:
+				for s2, v in eng.call(s, f, [x], {}, node):
+					if isinstance(v, Raised):
+						yield s2, v
+					else:
+						nxt.append((s2, acc + [v]))
+			states = nxt
+		for s, acc in states:
+			yield s, ConcreteIter(acc)
+		return
+
+	def elem(s1, item):
+		yield from eng.call(s1, f, [item], {}, node)
+	yield from eng.generic_map(st, xs, elem, node)
+
+
+# ---- str (z3 strings) ---------------------------------------------------------------------------------------------------
+
+@lib('method:endswith')
+def _endswith(eng, st, obj, args, kwargs, node, site):
+	s, suf = obj, args[0]
+	if isinstance(s, str) and isinstance(suf, (str, tuple)):
+		yield st, s.endswith(suf)
+		return
+	if isinstance(s, (SStr, str)) and isinstance(suf, (SStr, str)):
+		yield st, SBool(z3.SuffixOf(to_term(suf), to_term(s)))
+		return
+	raise Unsupported(f'endswith on {s!r}')
+
+
+@lib('method:startswith')
+def _startswith(eng, st, obj, args, kwargs, node, site):
+	s, pre = obj, args[0]
+	if isinstance(s, str) and isinstance(pre, (str, tuple)):
+		yield st, s.startswith(pre)
+		return
+	if isinstance(s, (SStr, str)) and isinstance(pre, (SStr, str)):
+		yield st, SBool(z3.PrefixOf(to_term(pre), to_term(s)))
+		return
+	raise Unsupported(f'startswith on {s!r}')
+
+
+@lib('os.fspath', 'os.fsdecode')
+def _fspath(eng, st, args, kwargs, node):
+	v = args[0]
+	if isinstance(v, (str, SStr)):
+		yield st, v
+		return
+	h = eng.lib.get('fspath:' + type(st.deref(v)).__name__)
+	if h is not None:
+		yield from h(eng, st, v, node)
+		return
+	if isinstance(v, SObj) and 'pathstr' in v.T.fields:
+		yield st, v.getattr('pathstr')
+		return
+	raise Unsupported(f'fspath({v!r})')
+
+
+@lib('os.path.basename', 'posixpath.basename')
+def _basename(eng, st, args, kwargs, node):
+	"""the part after the last '/' (POSIX)"""
+	s = args[0]
+	if isinstance(s, str):
+		import posixpath
+		yield st, posixpath.basename(s)
+		return
+	d = z3.String(fresh_name('dirpart'))
+	r = z3.String(fresh_name('base'))
+	st.assume(z3.And(s.term == z3.Concat(d, r), z3.Not(z3.Contains(r, z3.StringVal('/'))),
+	                 z3.Or(d == z3.StringVal(''), z3.SuffixOf(z3.StringVal('/'), d))))
+	yield st, SStr(r)
+
+
+@lib('__getitem__')
+def _getitem_hook(eng, st, obj, idx, node, site):
+	# str slicing s[:-n] / s[:n] / s[n:] with concrete n
+	if isinstance(obj, SStr) and isinstance(idx, SSlice) and idx.step is None:
+		L = z3.Length(obj.term)
+		lo, hi = idx.start, idx.stop
+		def norm(v, default):
+			if v is None:
+				return default
+			t = int_term(v)
+			t = z3.If(t < 0, t + L, t)
+			return z3.If(t < 0, 0, z3.If(t > L, L, t))
+		a, b = norm(lo, z3.IntVal(0)), norm(hi, L)
+		return iter([(st, SStr(z3.SubString(obj.term, a, z3.If(b - a < 0, 0, b - a))))])
+	return None
